@@ -60,6 +60,9 @@ fn run_format(cfg: &Cfg, index: u64, stats: &mut Stats) {
                 let mut t = crate::props::c12::tags_for(&input);
                 t.push(format!("layout:{}", ["preserve", "blank_lines", "ignore"][case.options.layout.min(2) as usize]));
                 t.push(format!("parentheses:{}", ["minimal", "preserve"][case.options.parens.min(1) as usize]));
+                if case.options.layout == 0 && case.options.width <= 40 {
+                    t.push("preserve-at-width<=40".to_string());
+                }
                 t
             },
             generator: "format".into(),
@@ -85,21 +88,16 @@ fn run_format(cfg: &Cfg, index: u64, stats: &mut Stats) {
         | Ok(Ok(twice)) => {
             stats.count("idempotence_checked");
             if twice != once {
-                // where the two outputs first differ: a continuation line of a hanging `->` / `*` operator table is the
-                // location class of the recorded finding
-                let at = once.bytes().zip(twice.bytes()).position(|(x, y)| x != y).unwrap_or(once.len().min(twice.len()));
-                let line_of = |s: &str| -> String {
-                    let from = s[..at.min(s.len())].rfind('\n').map(|p| p + 1).unwrap_or(0);
-                    s[from..].lines().next().unwrap_or("").to_string()
-                };
-                let (l1, l2) = (line_of(&once), line_of(&twice));
-                let same_text = l1.trim() == l2.trim();
-                let class = if same_text && (l1.contains("->") || l1.trim_start().starts_with('*') || l1.contains(" * ")) {
-                    "formatting-not-idempotent indentation-of-operator-chain-line"
-                } else if same_text {
-                    "formatting-not-idempotent indentation-only"
+                // classify: do the two outputs differ in layout only (same code tokens and comments), or in tokens?
+                let toks = |t: &str| crate::e2::scan::scan(t).iter().map(|k| k.text(t).trim_end().to_string()).collect::<Vec<_>>();
+                let (t1, t2) = (toks(&once), toks(&twice));
+                let class = if t1 == t2 {
+                    "formatting-not-idempotent layout-only"
+                } else if t2.len() < t1.len() {
+                    // a removal-only rewrite (telescope merge, sugar) that only fires on the formatter's own output
+                    "formatting-not-idempotent tokens-removed-on-second-pass"
                 } else {
-                    "formatting-not-idempotent"
+                    "formatting-not-idempotent tokens-changed"
                 };
                 fail(stats, class, first_difference(&once, &twice), json!({"formatted_twice": twice}));
                 return;
